@@ -1204,7 +1204,7 @@ func TestVerifC17_QuorumLargeGroups(t *testing.T) {
 	if lf.initErr != nil {
 		t.Fatalf("fixture: %v", lf.initErr)
 	}
-	kit.Run(t, "C17", kit.Budget{Quick: 200, Thorough: 2000},
+	kit.Run(t, "C17", kit.Budget{Quick: 200, Thorough: 1000},
 		"group of n in {64,65,72,100,255,256,257,264,400 (x2)} (10/12) or uniform in 64..400 (2/12) distinct BLS keys out of a pool of 401; one of two fixed headers (shard header, meta block) whose per-key signature shares are cached; signer set S with |S| around the threshold as for small groups, placed as first k / leader + last k-1 / leader + contiguous run / random subset / periodic in the index with a power-of-two period 8..256; aggregated signature really produced by S (8% of cases: header changed after signing); bitmap = exact / + padding bits / filled up to the quorum / + 1-3 non-signer bits / - signer bits / all ones / random / 1-9 bytes longer / one byte shorter, the non-signer bits taken from a drawn focus region (anywhere, beyond the last power-of-two boundary e.g. indices >= 256, last partial 8-byte chunk, one byte position of every chunk); 1 in 8 cases uses the fallback threshold; non-trivial = |S| in {t-1,t}, bitmap of the expected length with the proposer bit set; distinct by (n, fallback, S, bitmap, tampered)",
 		func(rt *rapid.T, c *kit.Case) {
 			vc := verifC17GenLargeCase(rt)
